@@ -69,15 +69,21 @@ structure PTimerSim (uws : Char → Bool) (t' t : PTimer α) : Prop where
   name : OptRel (TextSim uws) t'.name t.name
   quantity : OptRel (LocSim (PQuantitySim uws)) t'.quantity t.quantity
 
+/-- the YAML text of a front-matter event and its CRLF conversion (the YAML parser is outside the
+    model: the texts are related as source text, one fragment each, at any offsets) -/
+def FmTextCrlf (t' t : Text) : Prop := ∃ y o' o, t' = Text.fromStr (crlf y) o' ∧ t = Text.fromStr y o
+
 /-- events with the same rendered content: same constructor, texts with the same content
     (`TextSim`), diagnostics of the same kind, components with the same content
     (`PIngredientSim`, `PCookwareSim`, `PTimerSim`: equal modifiers, values and reference data,
-    texts with the same content).  Source spans are never compared. -/
+    texts with the same content).  Source spans are never compared.  A front-matter event (never
+    produced by the block parsers) is related to one with the same content or with the
+    CRLF-converted YAML text (`FmTextCrlf`). -/
 def EvSim (uws : Char → Bool) : Ev α → Ev α → Prop
+  | .frontMatter t', .frontMatter t => TextSim uws t' t ∨ FmTextCrlf t' t
   | .ingredient i', .ingredient i => PIngredientSim uws i'.val i.val
   | .cookware c', .cookware c => PCookwareSim uws c'.val c.val
   | .timer t', .timer t => PTimerSim uws t'.val t.val
-  | .frontMatter t', .frontMatter t => TextSim uws t' t
   | .metadata k' v', .metadata k v => TextSim uws k' k ∧ TextSim uws v' v
   | .«section» n', .«section» n => OptRel (TextSim uws) n' n
   | .start k', .start k => k' = k
